@@ -38,6 +38,12 @@ def hist_is(h, x, tmin, inf, ti, rec, tr, upto_rec=True):
                      Implies(And(inf, ti == tmin), entry(h, x, 0, ti, SC('I'))))))
 
 
+def _fresh_history(run, s):
+    h = SHistory(s.tmin, 'node_history_ret')
+    run.assume(h.wellformed())
+    return h
+
+
 def contracts():
     cs = []
     IT = T.dict_of('U', 'R')
@@ -78,5 +84,6 @@ def contracts():
         cases=[Case('SIR', dict(infection_times=IT, recovery_times=IT, tmin=T.real, SIR=T.true))],
         locals_={'node_history': T.history('tmin')},
         loops={0: inv_inf, 1: inv_rec},
+        make_ret=lambda run, s: _fresh_history(run, s),
         ensures=post))
     return cs
